@@ -50,6 +50,9 @@ type domSpec struct {
 	ExactLenParam int
 	ExactLenField string
 	ExactLenWhy   string
+	// TreePresent, if set, says why a value of the given type that is read from memory (a field, a list
+	// element) is never nil on the domain ("" if it may be): the nodes of a message of the encodable domain
+	TreePresent func(t types.Type) string
 }
 
 // domExternalNeverFails: external callees whose error result is nil for every in-domain argument.
@@ -334,6 +337,35 @@ func (d *domAn) domFacts(f *FA, spec *domSpec) []Fact {
 	if spec.Rel != nil {
 		out = append(out, spec.Rel(f)...)
 	}
+	// q = a / d with a divisor that is not a constant but at least m >= 1 (a hash size), and a dividend the
+	// domain keeps non-negative: m*q <= a
+	for _, b := range fn.Blocks {
+		for _, ins := range b.Instrs {
+			bo, ok := ins.(*ssa.BinOp)
+			if !ok || bo.Op != token.QUO {
+				continue
+			}
+			if _, _, isInt := f.typeRange(bo.Type()); !isInt {
+				continue
+			}
+			k := f.LFOf(bo.Y)
+			if k.isConst() {
+				continue
+			}
+			m, _ := f.bounds(k, nil)
+			if m < 1 || m > 1<<16 {
+				continue
+			}
+			a := f.LFOf(bo.X)
+			if nonneg, _ := f.Prove(a, out); nonneg {
+				q := f.LFOf(bo)
+				out = append(out, Fact{L: a.add(q, -m)}, Fact{L: q})
+				if _, hi := f.bounds(a, f.refine(out)); hi < INF {
+					out = append(out, Fact{L: konst(hi / m).add(q, -1)})
+				}
+			}
+		}
+	}
 	return out
 }
 
@@ -562,6 +594,14 @@ func (d *domAn) guardRefuted(x *domFn, p *ssa.BasicBlock, succ int) (bool, strin
 		if nilEdge {
 			if isErrorType(v.Type()) {
 				return false, "the no-error edge of " + text
+			}
+			if spec.TreePresent != nil {
+				// a node of the message tree read from memory (a field or a list element): present on the domain
+				if ld, ok := v.(*ssa.UnOp); ok && ld.Op == token.MUL {
+					if why := spec.TreePresent(v.Type()); why != "" {
+						return true, text + ": " + why
+					}
+				}
 			}
 			if p := valuePath(fn, v); p != "" {
 				if spec.NonNil[p] {
@@ -1083,6 +1123,7 @@ func (c *Ctx) c07Totality(r *Report, prefix string) {
 		specs[gen] = genSpec
 		c.newCryptoSpecs(specs, gen)
 	}
+	c.prfPlusSpec(specs, 224)
 	if nk != nil {
 		lists := [2]int64{1, INF}
 		specs[nk] = &domSpec{
@@ -1104,6 +1145,20 @@ func (c *Ctx) c07Totality(r *Report, prefix string) {
 	c.domainTotalRule(r, prefix+"total-on-domain",
 		"every failure exit of GenerateKeyForIKESA and NewIKESAKey (and, through their error tests, of PrfPlus and the NewCrypto implementers) is unreachable for nonces and shared secrets of 1..512 octets and a complete registered suite: on each path to it a branch is refuted by the domain (presence of the descriptors, length intervals by linear arithmetic, callees that cannot fail)",
 		20, specs, []*ssa.Function{gen, nk})
+}
+
+// prfPlusSpec: what the derivation call sites fix about PrfPlus's arguments: a keyed PRF object (the descriptor's
+// Init result / the IKE SA's SK_d object), and between 1 and maxLen octets requested (the sum of the registered
+// key lengths: rule registry-lengths), far below the 255 blocks of at least 16 octets prf+ is defined for.
+func (c *Ctx) prfPlusSpec(specs map[*ssa.Function]*domSpec, maxLen int64) {
+	pp := c.Func("security/lib", "PrfPlus")
+	if pp == nil || len(pp.Params) != 3 {
+		return
+	}
+	specs[pp] = &domSpec{ExactLenParam: -1, renamed: true,
+		NonNil: map[string]bool{pp.Params[0].Name(): true},
+		IntDom: map[string][2]int64{pp.Params[2].Name(): {1, maxLen}},
+		EnvErr: map[string]string{}, LenDom: map[string][2]int64{}}
 }
 
 // prfPlusLenRel: on the domain prf+ delivers exactly the requested number of octets (rule prf-plus: the
@@ -1152,6 +1207,7 @@ func (c *Ctx) c08Totality(r *Report, prefix string) {
 			Rel:    func(f *FA) []Fact { return append(prfPlusLenRel(f), keyLenPositiveRel(f)...) },
 		}
 	}
+	c.prfPlusSpec(specs, 128)
 	c.domainTotalRule(r, prefix+"total-on-domain",
 		"every failure exit of GenerateKeyForChildSA (and of PrfPlus behind its nil test) is unreachable for any nonce string (including the empty one), with or without an integrity transform, on an IKE SA that holds SK_d: on each path to it a branch is refuted by the domain",
 		6, specs, []*ssa.Function{gen})
@@ -1585,6 +1641,13 @@ func (c *Ctx) encodeTotality(r *Report, prefix string) {
 		s := base()
 		for _, p := range fn.Params {
 			s.NonNil[p.Name()] = true
+		}
+		s.TreePresent = func(t types.Type) string {
+			k := typeKey(t)
+			if k == "message.IKEPayload" || k == "eap.EapTypeData" || strings.HasPrefix(k, "*message.") || strings.HasPrefix(k, "*eap.") {
+				return "a message of the encodable domain has every node of its tree (header, payloads, proposals, transforms, selectors, attributes, EAP packet); a nil node cannot be encoded at all"
+			}
+			return ""
 		}
 		if tweak != nil {
 			tweak(s)
